@@ -344,6 +344,44 @@ def search_tmc_node_crossing(chk, r, n):
         chk.search_case("tmc_no_jump_when_xi_crosses_a_node", ok, what=f"{name} TMC={tmc} degree={deg} Q2={Q2}: prediction jumps by {jump:.2e} (relative) when xi crosses node #{k} = {g[k]:.5g} (a displacement of 2e-7; smooth slope {slope:.3g})", data=d, sample=d if i == 0 else None)
 
 
+def search_proven_bounds(chk, r, n):
+    """the two theorems of the convergence clause, evaluated on eko's real basis: the Lebesgue function is
+    below `(d+1)(d hmax/hmin)^(d+1)` (lebesgue_function_bounded) and the interpolation error of
+    sin(w t) (every derivative bounded by w^k) is below the bound of refinement_converges"""
+    import eko.interpolation as I
+
+    for i in range(n):
+        d = 1 + i % 4
+        log = i % 2 == 0
+        N = [20, 40, 80][i % 3] if i < 12 else r.randint(d + 2, 60)
+        if i < 12:  # uniform in the grid variable: mesh ratio 1 (up to rounding)
+            g = list(np.geomspace(1e-3, 1, N)) if log else list(np.linspace(1e-3, 1, N))
+        else:
+            g = sorted({float(r.uniform(0.001, 1)) for _ in range(N)})
+            N = len(g)
+            if N < d + 2:
+                continue
+        disp = I.InterpolatorDispatcher(I.XGrid([float(v) for v in g], log=log), d, mode_N=False)
+        tg = [float(v) for v in disp.xgrid.grid]
+        hs = np.diff(tg)
+        hmin, hmax = float(hs.min()), float(hs.max())
+        rho = hmax / hmin
+        lam_bound = (d + 1) * (d * rho) ** (d + 1)
+        w = 1.0
+        err_bound = (1 + lam_bound) * w ** (d + 1) * (d * hmax) ** (d + 1) / math.factorial(d)
+        for _ in range(6):
+            t = float(r.uniform(tg[0], tg[-1]))
+            if t <= tg[0]:
+                continue
+            vals = [float(I.evaluate_x(t, bf.areas_representation)) for bf in disp]
+            lam = sum(abs(v) for v in vals)
+            interp = sum(math.sin(w * tj) * v for tj, v in zip(tg, vals))
+            err = abs(interp - math.sin(w * t))
+            dd = dict(N=N, degree=d, log=log, t=t, mesh_ratio=rho, hmax=hmax, lebesgue=lam, lebesgue_bound=lam_bound, error=err, error_bound=err_bound, grid=g if N <= 30 else None)
+            okb = lam <= lam_bound * (1 + 1e-9) and err <= err_bound * (1 + 1e-9) + 1e-13
+            chk.search_case("error_within_proven_bounds", okb, what=f"eko basis N={N} degree={d} log={log} t={t!r}: Lebesgue function {lam:.4g} (proved bound {lam_bound:.4g}), interpolation error of sin(t) {err:.3e} (proved bound {err_bound:.3e})", data=dd, sample={k: v for k, v in dd.items() if k != "grid"} if i == 1 else None, nontrivial=err_bound < 1e-2)
+
+
 def run(tier):
     chk = common.Check("C19", tier)
     thorough = tier == "thorough"
@@ -355,9 +393,10 @@ def run(tier):
     search_node_displacement(chk, r, 18 if thorough else 6)
     search_tmc_node_crossing(chk, r, 12 if thorough else 3)
     search_refinement(chk, r, 8 if thorough else 2)
+    search_proven_bounds(chk, r, 60 if thorough else 18)
     chk.assumptions += [
         "the interpolation basis is eko's (external library): modelled by hand in Model/Interp.lean (block layout, areas, evaluate_x, is_below_x) and tied by the interp_layout / interp_basis / interp_is_below_x correspondences on random grids, degrees 1..6, both modes; eko's 2.2e-15 absolute tolerance at the left end of a basis function's first area is modelled as exact equality",
-        "PARTIAL: proved is exactness on the span (polynomials of degree <= interpolation degree in x resp. log x: any two grids give the same prediction for every linear functional), the node values, the absence of a jump at nodes and the support; the *rate* of convergence for smooth PDFs outside the span (classical Lagrange remainder) is observed on real runs (refinement_converges), not proved",
+        "PARTIAL: proved are exactness on the span (polynomials of degree <= interpolation degree in x resp. log x: any two grids give the same prediction for every linear functional), the node values, the absence of a jump at nodes, the support, and the convergence of the *interpolant* of a smooth PDF with its rate (interpolation_error_bound, lebesgue_function_bounded, refinement_converges, log_grid_refinement_converges: error <= (1+(d+1)(d rho)^(d+1)) M (d hmax)^(d+1)/d!); what remains observed is the step from the interpolant to the *prediction* for PDFs outside the span (continuity of the convolution functional in the sup norm, i.e. integrability of the coefficient functions) and the quadrature (search refinement_converges on real runs); error_within_proven_bounds evaluates both proved bounds on eko's real basis",
         "quadrature accuracy (scipy, 1e-10 border cut) bounds the agreement observed on the real code: 2e-7 relative",
         "scale-variation orders involve a second interpolation of P (x) f from the grid nodes: exact only when the requested x is a common node; checked there",
     ]
